@@ -156,6 +156,12 @@ class Engine:
         self.fields = dict(spec.fields)
     # -------------------------------------------------------------------------------------------- obligations
     def emit(self, path, label, goal, line=0, extra=()):
+        if label.startswith('no-') and 'Error@' in label:
+            # implicit raises are modelled as obligations ("cannot happen"), not as control flow: inside a try block that CATCHES the exception that would be wrong
+            exc = label[3:].split('@')[0]
+            for caught in getattr(self, '_try_stack', []):
+                if exc in caught or '*' in caught or 'Exception' in caught or ('LookupError' in caught and exc in ('IndexError', 'KeyError')):
+                    raise Unsupported(f'implicit {exc} inside a try block that catches it (line {line}): expression-level exceptional control flow is outside the subset')
         if self.mute: return None
         ob = RawOb(label, list(path.pc), list(path.facts) + list(extra), goal, line); self.obs.append(ob); return ob
     def dotted(self, e):
@@ -583,7 +589,13 @@ class Engine:
         if isinstance(s, ast.Try):
             if s.finalbody or s.orelse: raise Unsupported('try/finally/else')
             outs = []
-            for o in self.block(s.body, p):
+            caught = set()
+            for hnd in s.handlers:
+                caught |= {'*'} if hnd.type is None else ({self.dotted(t).split('.')[-1] for t in hnd.type.elts} if isinstance(hnd.type, ast.Tuple) else {self.dotted(hnd.type).split('.')[-1]})
+            self._try_stack = getattr(self, '_try_stack', []) + [caught]
+            try: body_outs = self.block(s.body, p)
+            finally: self._try_stack = self._try_stack[:-1]
+            for o in body_outs:
                 if o.kind.startswith('raise:'):
                     exc = o.kind[6:].split('.')[-1]; handled = False
                     for hnd in s.handlers:
